@@ -288,7 +288,9 @@ def check_analytic(rep, prog, m):
         lp = [n for n in fn.body if isinstance(n, ast.For)]
         ok = False
         det = ''
-        if lp and okd:
+        if lp and okd and not isinstance(lp[0].target, ast.Name):
+            det = 'unrecognised loop (the peeling loop does not run over a plain index: %s)' % ast.unparse(lp[0].target)
+        elif lp and okd:
             v = lp[0].target.id
             b = {}
             augs = {}
